@@ -245,6 +245,7 @@ def run(ctx: Ctx):
     col.floor("index_slice_sites", nsites, 12)
     # ---- S6 chunk_by_slices index arithmetic == per-sequence pad-and-slice specification -------------------------
     _slice_arithmetic(ctx, cbs, gpb)
+    _pad_arithmetic(ctx, pv, gpb)
     # ---- S7 handler / raiser agreement around the validation helpers -----------------------------------------------
     from rules.excmatch import ArgcheckRaises, mismatched_handlers
     acr = ArgcheckRaises(pkg)
@@ -270,10 +271,14 @@ def run(ctx: Ctx):
             "the placeholder mode; (S3) random_shift returns its parameters themselves in evaluation mode and the "
             "layer passes self.training; (S4) pad amounts are trunc(u * prop * len), u in [0, 1), output lengths "
             "in_lens + pad.sum(0); (S5) every index-range slice is covered by construction or by a dominating guard "
-            "[F16 repaired]. NOT decided: equality with per-sequence pad-and-slice, the reflect offset correction, "
-            "pad_masked_sequence layout (index arithmetic on tensors)."),
-        decided=["S1", "S2", "S3", "S4", "S5"],
-        not_decided=["equality with per-sequence torch padding", "reflect offset correction", "pad_masked_sequence layout"],
+            "[F16 repaired]; (S6) the nine lengths / masks of chunk_by_slices, the four position masks of pad_variable "
+            "and, per padding mode, the source index and count of both buffers of _get_padding_buffers, extracted as "
+            "min/max-linear terms, agree with the per-sequence constant / reflect / replicate rule at every grid point; "
+            "(S7) handlers around validation helpers catch what the helper raises [F20 repaired]. NOT decided: that "
+            "masked_select / masked_scatter pair elements in the same order (row-major order of both masks is trusted), "
+            "pad_masked_sequence layout."),
+        decided=["S1", "S2", "S3", "S4", "S5", "S6", "S7"],
+        not_decided=["element order of masked_select/masked_scatter pairs", "pad_masked_sequence layout"],
         assumptions=["torch.rand_like draws from [0, 1)", ".long() truncates toward zero"],
     )
 
@@ -428,6 +433,153 @@ def _slice_arithmetic(ctx: Ctx, cbs, gpb):
     col.floor("slice_arith_terms", len(found), 9)
 
 
+def _pad_arithmetic(ctx: Ctx, pv, gpb):
+    """S6 (continued): pad_variable's four position masks and, per padding mode, the source index of every element of
+    the two buffers built by _get_padding_buffers, against torch's constant / reflect / replicate rule for one
+    sequence (left pad LP, right pad RP, length L): output position t holds x[t - LP] inside, x[LP - t] (reflect) /
+    x[0] (replicate) on the left, x[L - 2 - j] (reflect) / x[L - 1] (replicate) at offset j on the right."""
+    from sa import minmax as MM
+    from sa.specialise import specialise
+    col = ctx.col
+    rel = pv.module.relname
+
+    def make(node, padname=None, lp=None, rp=None, lens="lens"):
+        rd = ReachingDefs(node)
+
+        def leaf_of_def(d):
+            if d.kind == "param":
+                if d.name == lens:
+                    return "L"
+                if lp and d.name == lp:
+                    return "LP"
+                if rp and d.name == rp:
+                    return "RP"
+            if d.kind == "assign" and isinstance(d.value, ast.Call) and call_name(d.value) == "torch.arange":
+                return "t"
+            return None
+
+        def leaf_of_expr(e):
+            if padname and isinstance(e, ast.Subscript) and isinstance(e.value, ast.Name) and e.value.id == padname \
+                    and isinstance(e.slice, ast.Constant) and e.slice.value in (0, 1):
+                return ("LP", "RP")[e.slice.value]
+            if isinstance(e, ast.Subscript) and isinstance(e.value, ast.Name) and isinstance(e.slice, ast.Slice):
+                if {leaf_of_def(d) for d in rd.defs_of(e.value)} == {"t"}:
+                    return "t"
+            return None
+
+        def term_hook(e, ex, depth):
+            if padname and isinstance(e, ast.Call) and isinstance(e.func, ast.Attribute) and e.func.attr == "sum" \
+                    and isinstance(e.func.value, ast.Name) and e.func.value.id == padname and len(e.args) == 1 \
+                    and isinstance(e.args[0], ast.Constant) and e.args[0].value == 0:
+                return ("add", ("leaf", "LP"), ("leaf", "RP"))
+            return None
+        return rd, MM.Extractor(rd, leaf_of_def, leaf_of_expr, term_hook=term_hook)
+
+    def grid(reflect=False, replicate=False):
+        for L in range(0, 5):
+            if replicate and L < 1:
+                continue
+            for LP in range(0, 6):
+                for RP in range(0, 6):
+                    if reflect and (LP >= L or RP >= L):
+                        continue
+                    for t in range(0, 14):
+                        yield dict(L=L, LP=LP, RP=RP, t=t)
+
+    nchecked = 0
+
+    def compare(key, term, want, text, line, g):
+        nonlocal nchecked
+        env, got, w, n = MM.counterexample(term, want, g)
+        shown = MM.showc(term) if MM.is_cond(term) else MM.show(term)
+        nchecked += 1
+        col.ob("G12", "S6", f"{rel}::{key}", env is None and n > 0,
+               f"{key.split('::')[-1]} is `{shown[:200]}`; the per-sequence padding rule requires {text}; they differ e.g. "
+               f"at {env}: {got} vs {w}", rel, line, sample=dict(term=shown[:160], grid_points=n))
+
+    # ---- pad_variable ------------------------------------------------------------------------------------------
+    padname = pv.params[2].name
+    rd, ex = make(pv.node, padname=padname, lens=pv.params[1].name)
+    kcalls = [c for c in own_calls(pv.node) if call_name(c) == "_get_padding_buffers"]
+    specs = {
+        "valid-elements": (lambda v: v["t"] < v["L"], "t < len"),
+        "left-buffer-positions": (lambda v: v["t"] < v["LP"], "t < left pad"),
+        "sequence-positions": (lambda v: v["LP"] <= v["t"] < v["LP"] + v["L"], "left <= t < left + len"),
+        "right-buffer-positions": (lambda v: v["LP"] + v["L"] <= v["t"] < v["LP"] + v["L"] + v["RP"], "left+len <= t < left+len+right"),
+    }
+    found = {}
+    for n in own_nodes(pv.node):
+        if isinstance(n, ast.Call) and isinstance(n.func, ast.Attribute):
+            if n.func.attr == "masked_select" and len(n.args) == 1:
+                found["valid-elements"] = n.args[0]
+            if n.func.attr == "masked_scatter" and len(n.args) == 2 and isinstance(n.args[1], ast.Name):
+                ds = list(rd.defs_of(n.args[1]))
+                if len(ds) == 1 and ds[0].kind == "unpack" and ds[0].value is kcalls[0]:
+                    found[("left-buffer-positions", "right-buffer-positions")[ds[0].slot[0]]] = n.args[0]
+                elif len(ds) == 1 and ds[0].kind == "assign" and isinstance(ds[0].value, ast.Call) and \
+                        isinstance(ds[0].value.func, ast.Attribute) and ds[0].value.func.attr == "masked_select":
+                    found["sequence-positions"] = n.args[0]
+    if set(found) != set(specs):
+        raise AnalysisError(f"C09: pad_variable anchors not found: {sorted(set(specs) - set(found))}")
+    for key, expr in found.items():
+        try:
+            term = ex.cond(expr)
+        except MM.Unknown as e:
+            col.undecided(f"C09: {key} of pad_variable: {e}")
+            continue
+        compare(f"pad_variable::pad-arithmetic[{key}]", term, specs[key][0], specs[key][1], expr.lineno, grid())
+    # output lengths: the Tp extent is the max of len + left + right
+    # ---- _get_padding_buffers, per mode ---------------------------------------------------------------------------
+    want_idx = {
+        ("reflect", 0): (lambda v: v["LP"] - v["t"] if v["t"] < v["LP"] else None, "x[left - t]"),
+        ("reflect", 1): (lambda v: v["L"] - 2 - v["t"] if v["t"] < v["RP"] else None, "x[len - 2 - j]"),
+        ("replicate", 0): (lambda v: 0 if v["t"] < v["LP"] else None, "x[0]"),
+        ("replicate", 1): (lambda v: v["L"] - 1 if v["t"] < v["RP"] else None, "x[len - 1]"),
+    }
+    want_mask = {0: (lambda v: v["t"] < v["LP"], "j < left pad"), 1: (lambda v: v["t"] < v["RP"], "j < right pad")}
+    P = [p.name for p in gpb.params]
+    for mode in ("reflect", "replicate"):
+        node, folded = specialise(gpb.node, {P[4]: mode})
+        if folded < 2:
+            raise AnalysisError("C09: _get_padding_buffers no longer dispatches on its mode formal")
+        rd, ex = make(node, lp=P[2], rp=P[3], lens=P[1])
+        rets = [n for n in ast.walk(node) if isinstance(n, ast.Return) and isinstance(n.value, ast.Tuple) and len(n.value.elts) == 2]
+        if len(rets) != 1:
+            raise AnalysisError("C09: _get_padding_buffers does not return (left, right) once")
+        for slot, elt in enumerate(rets[0].value.elts):
+            ds = list(rd.defs_of(elt)) if isinstance(elt, ast.Name) else []
+            if len(ds) != 1 or ds[0].kind != "assign":
+                col.undecided(f"C09: {mode} buffer {slot} has {len(ds)} definitions")
+                continue
+            v = ds[0].value
+            # <source>.masked_select(mask), source = x.gather(1, idx)[.expand] | x[:, :1].expand(...)
+            if not (isinstance(v, ast.Call) and isinstance(v.func, ast.Attribute) and v.func.attr == "masked_select" and len(v.args) == 1):
+                col.undecided(f"C09: {mode} buffer {slot} is not a masked selection")
+                continue
+            mask, src = v.args[0], v.func.value
+            while isinstance(src, ast.Call) and isinstance(src.func, ast.Attribute) and src.func.attr in ("expand", "expand_as", "contiguous"):
+                src = src.func.value
+            try:
+                if isinstance(src, ast.Call) and isinstance(src.func, ast.Attribute) and src.func.attr == "gather" and len(src.args) == 2 \
+                        and u(src.func.value) == P[0] and u(src.args[0]) == "1":
+                    idx = ex.term(src.args[1])
+                elif isinstance(src, ast.Subscript) and u(src) == f"{P[0]}[:, :1]":
+                    idx = 0
+                else:
+                    raise MM.Unknown(f"source `{u(src)[:50]}`")
+                mterm = ex.cond(mask)
+            except MM.Unknown as e:
+                col.undecided(f"C09: {mode} buffer {slot}: {e}")
+                continue
+            g = lambda: grid(reflect=(mode == "reflect"), replicate=(mode == "replicate"))
+            side = ("left", "right")[slot]
+            compare(f"_get_padding_buffers::{mode}-{side}-source-index", idx, want_idx[(mode, slot)][0],
+                    want_idx[(mode, slot)][1], v.lineno, g())
+            compare(f"_get_padding_buffers::{mode}-{side}-count", mterm, want_mask[slot][0], want_mask[slot][1], v.lineno, g())
+    col.count("pad_arith_terms", nchecked)
+    col.floor("pad_arith_terms", nchecked, 12)
+
+
 def _mutants():
     from selftest.mutate import Mutant as M
     P = "_pad.py"
@@ -459,13 +611,19 @@ def _mutants():
         M("twin:offset-from-raw-start", P, "offset = (start_ - lens).clamp_min_(0)", "offset = (start - lens).clamp_min_(0)", "", twin=True),
         M("twin:relu-for-clamp", P, "slice_lens = (end_ - start_).clamp_min(0)", "slice_lens = torch.relu(end_ - start_)", "", twin=True),
         M("twin:max-for-clamp", P, "start_ = start.clamp_min(0)", "start_ = torch.max(start, torch.zeros_like(start))", "", twin=True),
+        M("reflect-right-off-by-one", P, "lens.unsqueeze(1) - arange[:right_max] - 2", "lens.unsqueeze(1) - arange[:right_max] - 1", "reflect-right-source-index"),
+        M("reflect-left-from-edge", P, "(left_pad.unsqueeze(1) - arange[:left_max]).clamp_(min=0)", "(left_pad.unsqueeze(1) - arange[:left_max] - 1).clamp_(min=0)", "reflect-left-source-index"),
+        M("replicate-right-one-early", P, "x.gather(1, (lens - 1).view(N, 1, 1)", "x.gather(1, (lens - 2).view(N, 1, 1)", "replicate-right-source-index"),
+        M("sequence-placed-at-zero", P, "mid_mask = ((pad[0] + lens).unsqueeze(1) > arange[:Tp])", "mid_mask = (lens.unsqueeze(1) > arange[:Tp])", "pad-arithmetic["),
+        M("new-lens-left-twice", P, "new_lens = lens + pad.sum(0)", "new_lens = lens + pad[0] + pad[0]", "pad-arithmetic[right-buffer-positions]"),
+        M("twin:new-lens-spelled-out", P, "right_mask = (new_lens.unsqueeze(1) > arange[:Tp])", "right_mask = ((lens + pad[0] + pad[1]).unsqueeze(1) > arange[:Tp])", "", twin=True),
         M("twin:rename-left-max", P, "left_max", "lmax", "", -1, twin=True),
     ]
 
 
 def selftest(ctx: Ctx):
     from selftest.mutate import run_selftest
-    return run_selftest("C09", ctx.pkg.repo, _mutants(), floor=18)
+    return run_selftest("C09", ctx.pkg.repo, _mutants(), floor=23)
 
 
 MANIFEST = dict(
